@@ -1,8 +1,854 @@
 import Grass.Proto
-/- Core `Serialize` — stub; replaced by the model (see DESIGN.md §8). -/
+/-
+  Core `Serialize` — model of grass's CSS serializer for C05 / C06.
+
+  Modelled Rust (file:line of /repo at the time of writing):
+    crates/compiler/src/lib.rs:199-221          top-level loop (is_invisible, group-end / semicolon bookkeeping)
+    crates/compiler/src/serializer.rs:607-628   visit_group
+    crates/compiler/src/serializer.rs:635-657   finish (charset / BOM decision)
+    crates/compiler/src/serializer.rs:659-668   write_indentation
+    crates/compiler/src/serializer.rs:264-293   write_compound/complex_selector, write_selector_list
+    crates/compiler/src/serializer.rs:517-541   write_media_query (incl. the "(not " slice)
+    crates/compiler/src/serializer.rs:703-760   visit_list (non-inspect branch, unbracketed)
+    crates/compiler/src/serializer.rs:826-846   visit_unquoted_string
+    crates/compiler/src/serializer.rs:848-918   visit_quoted_string
+    crates/compiler/src/serializer.rs:965-983   write_style
+    crates/compiler/src/serializer.rs:985-996   write_import
+    crates/compiler/src/serializer.rs:998-1022  write_comment
+    crates/compiler/src/serializer.rs:1024-1030 requires_semicolon
+    crates/compiler/src/serializer.rs:1032-1081 write_children
+    crates/compiler/src/serializer.rs:1111-1183 visit_stmt
+    crates/compiler/src/ast/css.rs:54-67        CssStmt::is_invisible
+    crates/compiler/src/selector/{simple,compound,complex,list}.rs  is_invisible (placeholders)
+
+  Text is `List Char` (code points).  The Rust code works on UTF-8 bytes; every byte it inspects
+  is an ASCII byte, and in UTF-8 all bytes of a non-ASCII character are >= 0x80, so looking at
+  code points < 0x80 is the same as looking at ASCII bytes (this is the only byte/char argument
+  the model relies on; byte lengths are used where Rust uses `str::len`, see `utf8Len`).
+
+  Values are opaque: a declaration value is one atom or an unbracketed list of atoms; an atom is
+  an unquoted string (printed by `visit_unquoted_string`) or a quoted string (printed by
+  `visit_quoted_string`).  Numbers, colours, maps, calculations are outside this model (C07/C15).
+-/
 namespace Grass.Serialize
 
+abbrev Str := List Char
+
+inductive Style | expanded | compressed
+  deriving DecidableEq, Repr
+
+def Style.isCompressed : Style → Bool
+  | .compressed => true
+  | .expanded => false
+
+def lit (s : String) : Str := s.toList
+
+/-! ## small writers -/
+
+def spaces (n : Nat) : Str := List.replicate n ' '
+
+/-- `write_indentation` (serializer.rs:659). -/
+def indentOut (st : Style) (ind : Nat) : Str :=
+  if st.isCompressed then [] else spaces ind
+
+/-- `write_optional_newline` (serializer.rs:1090). -/
+def optNl (st : Style) : Str := if st.isCompressed then [] else ['\n']
+
+/-- `write_optional_space` (serializer.rs:1084). -/
+def optSp (st : Style) : Str := if st.isCompressed then [] else [' ']
+
+/-! ## selectors -/
+
+/-- A simple selector: opaque visible text (`.a`, `#b`, `a`, `:hover`, `[x=y]`) or a placeholder. -/
+inductive Simple
+  | text (s : Str)
+  | placeholder (name : Str)
+  deriving DecidableEq, Repr
+
+/-- selector/simple.rs:121 (restricted to the modelled simple selectors). -/
+def Simple.isInvisible : Simple → Bool
+  | .placeholder _ => true
+  | .text _ => false
+
+/-- `write_simple_selector` (serializer.rs:201). -/
+def Simple.out : Simple → Str
+  | .text s => s
+  | .placeholder n => '%' :: n
+
+inductive Component
+  | comb (c : Char)                   -- '+', '>' or '~'
+  | compound (ss : List Simple)
+  deriving DecidableEq, Repr
+
+/-- selector/compound.rs:65. -/
+def compoundInvisible (ss : List Simple) : Bool := ss.any Simple.isInvisible
+
+/-- `write_compound_selector` (serializer.rs:231): an empty result becomes `*`. -/
+def compoundOut (ss : List Simple) : Str :=
+  let o := (ss.map Simple.out).flatten
+  if o.isEmpty then ['*'] else o
+
+def Component.isInvisible : Component → Bool
+  | .comb _ => false
+  | .compound ss => compoundInvisible ss
+
+def Component.isComb : Component → Bool
+  | .comb _ => true
+  | .compound _ => false
+
+def Component.out : Component → Str
+  | .comb c => [c]
+  | .compound ss => compoundOut ss
+
+/-- `omit_spaces_around_complex_component` (serializer.rs:149). -/
+def omitSpaces (st : Style) (c : Component) : Bool := st.isCompressed && c.isComb
+
+/-- `write_complex_selector` (serializer.rs:261). -/
+def complexOut (st : Style) : Option Component → List Component → Str
+  | _, [] => []
+  | last, c :: cs =>
+    (match last with
+      | some l => if !omitSpaces st l && !omitSpaces st c then [' '] else []
+      | none => []) ++ c.out ++ complexOut st (some c) cs
+
+structure Complex where
+  lineBreak : Bool
+  comps : List Component
+  deriving DecidableEq, Repr
+
+/-- selector/complex.rs:131. -/
+def Complex.isInvisible (cx : Complex) : Bool := cx.comps.any Component.isInvisible
+
+abbrev Selector := List Complex
+
+/-- selector/list.rs:69. -/
+def selectorInvisible (sel : Selector) : Bool := sel.all Complex.isInvisible
+
+/-- loop of `write_selector_list` (serializer.rs:277) over the visible complexes. -/
+def selectorLoop (st : Style) : Bool → List Complex → Str
+  | _, [] => []
+  | first, cx :: cs =>
+    (if first then [] else
+      ',' :: (if cx.lineBreak then optNl st else optSp st)) ++
+    complexOut st none cx.comps ++ selectorLoop st false cs
+
+def selectorOut (st : Style) (sel : Selector) : Str :=
+  selectorLoop st true (sel.filter (fun c => !c.isInvisible))
+
+/-! ## media queries -/
+
+structure Query where
+  modifier : Option Str
+  mediaType : Option Str
+  conditions : List Str
+  conjunction : Bool
+  deriving DecidableEq, Repr
+
+def joinWith (sep : Str) : List Str → Str
+  | [] => []
+  | [x] => x
+  | x :: y :: r => x ++ sep ++ joinWith sep (y :: r)
+
+def startsWith (s p : Str) : Bool := p.isPrefixOf s
+
+/-- `write_media_query` (serializer.rs:517).  The slice `condition["(not ".len()..len-1]` drops the
+    five leading characters and the last one. -/
+def queryOut (q : Query) : Str :=
+  (match q.modifier with | some m => m ++ [' '] | none => []) ++
+  (match q.mediaType with
+    | some t => t ++ (if q.conditions.isEmpty then [] else lit " and ")
+    | none => []) ++
+  (match q.conditions with
+    | [c] =>
+      if startsWith c (lit "(not ") then lit "not " ++ ((c.drop 5).dropLast)
+      else c
+    | cs => joinWith (if q.conjunction then lit " and " else lit " or ") cs)
+
+/-! ## values -/
+
+inductive Atom
+  | raw (s : Str)       -- Value::String(_, QuoteKind::None)
+  | quoted (s : Str)    -- Value::String(_, QuoteKind::Quoted)
+  deriving DecidableEq, Repr
+
+inductive Sep | space | comma | slash
+  deriving DecidableEq, Repr
+
+inductive Value
+  | atom (a : Atom)
+  | list (sep : Sep) (items : List Atom)   -- Value::List(items, sep, Brackets::None)
+  deriving DecidableEq, Repr
+
+/-- value/mod.rs:211 `is_blank`. -/
+def Atom.isBlank : Atom → Bool
+  | .raw s => s.isEmpty
+  | .quoted _ => false
+
+def Value.isBlank : Value → Bool
+  | .atom a => a.isBlank
+  | .list _ items => items.all Atom.isBlank
+
+/-- `visit_unquoted_string` (serializer.rs:826): a newline becomes one space and swallows the
+    spaces that follow it. -/
+def unquotedLoop : Bool → Str → Str
+  | _, [] => []
+  | afterNl, c :: cs =>
+    if c = '\n' then ' ' :: unquotedLoop true cs
+    else if c = ' ' then (if afterNl then [] else [' ']) ++ unquotedLoop afterNl cs
+    else c :: unquotedLoop false cs
+
+def unquotedOut (s : Str) : Str := unquotedLoop false s
+
+/-- utils/chars.rs:1 `hex_char_for`. -/
+def hexCharFor (n : Nat) : Char :=
+  if n < 10 then Char.ofNat (0x30 + n) else Char.ofNat (0x61 - 10 + n)
+
+def isAsciiHexDigit (c : Char) : Bool :=
+  ('0' ≤ c && c ≤ '9') || ('a' ≤ c && c ≤ 'f') || ('A' ≤ c && c ≤ 'F')
+
+/-- The characters escaped numerically: `b'\x00'..=b'\x08' | b'\x0A'..=b'\x1F'` (serializer.rs:884). -/
+def isEscapedControl (c : Char) : Bool :=
+  c.toNat ≤ 0x08 || (0x0A ≤ c.toNat && c.toNat ≤ 0x1F)
+
+/-- The numeric escape of one control character, with the separating space when the next
+    character could be read as part of the escape (serializer.rs:884-899). -/
+def controlEscape (c : Char) (next : Option Char) : Str :=
+  ['\\'] ++ (if c.toNat > 0xF then [hexCharFor (c.toNat / 16)] else []) ++ [hexCharFor (c.toNat % 16)] ++
+  (match next with
+    | some n => if isAsciiHexDigit n || n = ' ' || n = '\t' then [' '] else []
+    | none => [])
+
+/-- Body loop of `visit_quoted_string` (serializer.rs:858-905).  `none` = the loop hit the other
+    kind of quote and the function restarts with `force_double_quote = true`.
+    Result: (escaped body, has_double_quote). -/
+def quoteLoop (force : Bool) : (hasSingle hasDouble : Bool) → Str → Option (Str × Bool)
+  | _, hd, [] => some ([], hd)
+  | hs, hd, c :: cs =>
+    if c = '\'' then
+      if force then (quoteLoop force hs hd cs).map (fun r => ('\'' :: r.1, r.2))
+      else if hd then none
+      else (quoteLoop force true hd cs).map (fun r => ('\'' :: r.1, r.2))
+    else if c = '"' then
+      if force then (quoteLoop force hs hd cs).map (fun r => ('\\' :: '"' :: r.1, r.2))
+      else if hs then none
+      else (quoteLoop force hs true cs).map (fun r => ('"' :: r.1, r.2))
+    else if isEscapedControl c then
+      (quoteLoop force hs hd cs).map (fun r => (controlEscape c cs.head? ++ r.1, r.2))
+    else if c = '\\' then
+      (quoteLoop force hs hd cs).map (fun r => ('\\' :: '\\' :: r.1, r.2))
+    else (quoteLoop force hs hd cs).map (fun r => (c :: r.1, r.2))
+
+/-- `visit_quoted_string(false, s)` (serializer.rs:848). -/
+def quote (s : Str) : Str :=
+  match quoteLoop false false false s with
+  | some (body, hasDouble) =>
+    let q := if hasDouble then '\'' else '"'
+    q :: body ++ [q]
+  | none =>
+    match quoteLoop true false false s with
+    | some (body, _) => '"' :: body ++ ['"']
+    | none => []   -- unreachable: the forced loop never restarts (`quoteLoop_force_isSome`)
+
+def Atom.out : Atom → Str
+  | .raw s => unquotedOut s
+  | .quoted s => quote s
+
+/-- `write_list_separator` (serializer.rs:670). -/
+def sepOut (st : Style) : Sep → Str
+  | .space => [' ']
+  | .comma => if st.isCompressed then [','] else lit ", "
+  | .slash => if st.isCompressed then ['/'] else lit " / "
+
+def listLoop (st : Style) (sep : Sep) : List Atom → Str
+  | [] => []
+  | [a] => a.out
+  | a :: b :: r => a.out ++ sepOut st sep ++ listLoop st sep (b :: r)
+
+/-- `visit_value` on the modelled values (serializer.rs:937; lists: 703, blank elements skipped). -/
+def Value.out (st : Style) : Value → Str
+  | .atom a => a.out
+  | .list sep items => listLoop st sep (items.filter (fun a => !a.isBlank))
+
+/-! ## comments -/
+
+def utf8Len (c : Char) : Nat :=
+  if c.toNat < 0x80 then 1 else if c.toNat < 0x800 then 2 else if c.toNat < 0x10000 then 3 else 4
+
+/-- Rust `char::is_whitespace` (Unicode White_Space). -/
+def isRustWhitespace (c : Char) : Bool :=
+  let n := c.toNat
+  (0x09 ≤ n && n ≤ 0x0D) || n = 0x20 || n = 0x85 || n = 0xA0 || n = 0x1680 ||
+  (0x2000 ≤ n && n ≤ 0x200A) || n = 0x2028 || n = 0x2029 || n = 0x202F || n = 0x205F || n = 0x3000
+
+def trimStart : Str → Str
+  | [] => []
+  | c :: cs => if isRustWhitespace c then trimStart cs else c :: cs
+
+def byteLen (s : Str) : Nat := (s.map utf8Len).sum
+
+/-- Split at '\n' (all pieces, including a trailing empty one). -/
+def splitNl : Str → List Str
+  | [] => [[]]
+  | c :: cs =>
+    match splitNl cs with
+    | [] => [[c]]     -- unreachable, `splitNl` is never empty
+    | l :: ls => if c = '\n' then [] :: l :: ls else (c :: l) :: ls
+
+def stripCr (l : Str) : Str :=
+  match l.getLast? with
+  | some '\r' => l.dropLast
+  | _ => l
+
+/-- Rust `str::lines`: split at '\n', a final empty piece is not a line, a trailing '\r' of a
+    line is dropped. -/
+def linesOf (s : Str) : List Str :=
+  let ps := splitNl s
+  let ps := if ps.getLast? = some [] then ps.dropLast else ps
+  ps.map stripCr
+
+/-- `write_comment` body (serializer.rs:1003-1021): first line left-trimmed; every further line
+    re-indented by its own indentation (in bytes) minus the column of the comment's start. -/
+def commentOut (text : Str) (col : Nat) : Str :=
+  match linesOf text with
+  | [] => []
+  | l :: ls =>
+    let rest := joinWith ['\n'] (ls.map fun line =>
+      spaces ((byteLen line - byteLen (trimStart line)) - col) ++ trimStart line)
+    trimStart l ++ (if rest.isEmpty then [] else '\n' :: rest)
+
+/-! ## the statement tree -/
+
+mutual
+inductive Stmt
+  | rule (ge : Bool) (sel : Selector) (body : Stmts)          -- CssStmt::RuleSet
+  | decl (name : Str) (custom : Bool) (v : Value)              -- CssStmt::Style
+  | media (ge : Bool) (qs : List Query) (body : Stmts)         -- CssStmt::Media
+  | supports (ge : Bool) (params : Str) (body : Stmts)         -- CssStmt::Supports
+  | unknown (ge : Bool) (name params : Str) (hasBody : Bool) (body : Stmts)  -- CssStmt::UnknownAtRule
+  | kf (sels : List Str) (body : Stmts)                        -- CssStmt::KeyframesRuleSet
+  | comment (text : Str) (col : Nat)                           -- CssStmt::Comment (col = column of its start)
+  | import (url : Str) (mods : Option Str)                     -- CssStmt::Import
+inductive Stmts
+  | nil
+  | cons (s : Stmt) (ss : Stmts)
+end
+
+def Stmts.toList : Stmts → List Stmt
+  | .nil => []
+  | .cons s ss => s :: ss.toList
+
+def Stmts.ofList : List Stmt → Stmts
+  | [] => .nil
+  | s :: ss => .cons s (Stmts.ofList ss)
+
+/-- ast/css.rs:44 `is_group_end`. -/
+def Stmt.isGroupEnd : Stmt → Bool
+  | .rule ge _ _ => ge
+  | .media ge _ _ => ge
+  | .supports ge _ _ => ge
+  | .unknown ge _ _ _ _ => ge
+  | _ => false
+
+/-- serializer.rs:1024 `requires_semicolon`. -/
+def Stmt.requiresSemicolon : Stmt → Bool
+  | .decl _ _ _ => true
+  | .import _ _ => true
+  | .unknown _ _ _ hasBody _ => !hasBody
+  | _ => false
+
+mutual
+/-- ast/css.rs:54 `is_invisible`. -/
+def Stmt.isInvisible : Stmt → Bool
+  | .rule _ sel body => selectorInvisible sel || body.allInvisible
+  | .decl _ _ v => v.isBlank
+  | .media _ _ body => body.allInvisible
+  | .supports _ _ body => body.allInvisible
+  | .kf _ body => body.allInvisible
+  | .unknown _ _ _ _ _ => false
+  | .comment _ _ => false
+  | .import _ _ => false
+def Stmts.allInvisible : Stmts → Bool
+  | .nil => true
+  | .cons s ss => s.isInvisible && ss.allInvisible
+end
+
+/-- Opening of `write_children` (serializer.rs:1033). -/
+def openBlock (st : Style) : Str := if st.isCompressed then ['{'] else lit " {\n"
+
+/-- Closing of `write_children` (serializer.rs:1072). -/
+def closeBlock (st : Style) (ind : Nat) : Str := indentOut st ind ++ ['}']
+
+/-- The `;` written after a child (serializer.rs:1050 / 1064): the last child's is omitted in
+    compressed mode. -/
+def childSemi (st : Style) (isLast : Bool) (s : Stmt) : Str :=
+  if s.requiresSemicolon && !(isLast && st.isCompressed) then [';'] else []
+
+/-- The separator-free rendering of `write_comment`'s guard: compressed output keeps only `/*!`. -/
+def commentKept (st : Style) (text : Str) : Bool :=
+  !(st.isCompressed && !startsWith text (lit "/*!"))
+
+mutual
+/-- `visit_stmt` (serializer.rs:1111): (did_write, bytes written). `ind` = `self.indentation`. -/
+def visitStmt (st : Style) (ind : Nat) : Stmt → Bool × Str
+  | .rule ge sel body =>
+    if (Stmt.rule ge sel body).isInvisible then (false, []) else
+    (true, indentOut st ind ++ selectorOut st sel ++ writeChildren st ind body)
+  | .decl name custom v =>
+    if v.isBlank then (false, []) else
+    (true, indentOut st ind ++ name ++ [':'] ++
+      (if !custom && !st.isCompressed then [' '] else []) ++ v.out st)
+  | .media ge qs body =>
+    if (Stmt.media ge qs body).isInvisible then (false, []) else
+    (true, indentOut st ind ++ lit "@media " ++ joinWith (',' :: optSp st) (qs.map queryOut) ++
+      writeChildren st ind body)
+  | .supports ge params body =>
+    if (Stmt.supports ge params body).isInvisible then (false, []) else
+    (true, indentOut st ind ++ lit "@supports" ++ (if params.isEmpty then [] else ' ' :: params) ++
+      writeChildren st ind body)
+  | .unknown _ name params hasBody body =>
+    (true, indentOut st ind ++ '@' :: name ++ (if params.isEmpty then [] else ' ' :: params) ++
+      (if !hasBody then []
+       else if body.allInvisible then lit " {}"
+       else writeChildren st ind body))
+  | .kf sels body =>
+    if (Stmt.kf sels body).isInvisible then (false, []) else
+    (true, indentOut st ind ++ joinWith (lit ", ") sels ++ writeChildren st ind body)
+  | .comment text col =>
+    if commentKept st text then (true, indentOut st ind ++ commentOut text col) else (true, [])
+  | .import url mods =>
+    (true, indentOut st ind ++ lit "@import " ++ url ++
+      (match mods with | some m => ' ' :: m | none => []))
+/-- `write_children` (serializer.rs:1032). -/
+def writeChildren (st : Style) (ind : Nat) (body : Stmts) : Str :=
+  openBlock st ++ childrenLoop st (ind + 2) body ++ closeBlock st ind
+/-- The two loops of `write_children` (all but the last child, then the last child). -/
+def childrenLoop (st : Style) (ind : Nat) : Stmts → Str
+  | .nil => []
+  | .cons s ss =>
+    let r := visitStmt st ind s
+    (if r.1 then r.2 ++ childSemi st (match ss with | .nil => true | _ => false) s ++ optNl st else []) ++
+    childrenLoop st ind ss
+end
+
+/-! ## top level -/
+
+structure Top where
+  buf : Str
+  prevGroupEnd : Bool
+  prevSemi : Bool
+  deriving Repr
+
+def Top.init : Top := ⟨[], false, false⟩
+
+/-- `visit_group` (serializer.rs:607) followed by the bookkeeping of lib.rs:216-217. -/
+def visitGroup (st : Style) (t : Top) (s : Stmt) : Top :=
+  let b1 := if t.prevSemi then t.buf ++ [';'] else t.buf
+  let b2 := if !b1.isEmpty then b1 ++ optNl st else b1
+  let b3 := if t.prevGroupEnd && !b2.isEmpty then b2 ++ optNl st else b2
+  ⟨b3 ++ (visitStmt st 0 s).2, s.isGroupEnd, s.requiresSemicolon⟩
+
+/-- lib.rs:204-218. -/
+def topLoop (st : Style) : Top → List Stmt → Top
+  | t, [] => t
+  | t, s :: ss => if s.isInvisible then topLoop st t ss else topLoop st (visitGroup st t s) ss
+
+def isNonAscii (c : Char) : Bool := c.toNat ≥ 128
+
+def charsetPrefix : Str := lit "@charset \"UTF-8\";\n"
+def bom : Char := Char.ofNat 0xFEFF
+
+/-- `finish` (serializer.rs:635). -/
+def finish (st : Style) (allowsCharset : Bool) (t : Top) : Str :=
+  let nonAscii := t.buf.any isNonAscii
+  let b1 := if t.prevSemi then t.buf ++ [';'] else t.buf
+  let b2 := if !b1.isEmpty then b1 ++ optNl st else b1
+  if nonAscii && st.isCompressed && allowsCharset then bom :: b2
+  else if nonAscii && allowsCharset then charsetPrefix ++ b2
+  else b2
+
+/-- The whole of lib.rs:199-221 on an already flattened tree. -/
+def serialize (st : Style) (allowsCharset : Bool) (t : List Stmt) : Str :=
+  finish st allowsCharset (topLoop st Top.init t)
+
+/-- The buffer just before `finish` (what the charset decision looks at). -/
+def body (st : Style) (t : List Stmt) : Str := (topLoop st Top.init t).buf
+
+/-! ## P̂: predicates on output text (used by the theorems and, through the driver, on grass's output) -/
+
+/-- Inverse of the escaping done by `visit_quoted_string`: CSS string unescaping.
+    `\` + 1–6 hex digits (+ one optional whitespace) is a code point, `\` + anything else is that
+    character.  `hexRun k acc` reads up to `k` further hex digits. -/
+def hexVal (c : Char) : Nat :=
+  if '0' ≤ c && c ≤ '9' then c.toNat - 48
+  else if 'a' ≤ c && c ≤ 'f' then c.toNat - 87
+  else c.toNat - 55
+
+mutual
+def unescapeBody : Str → Str
+  | [] => []
+  | c :: cs =>
+    if c = '\\' then
+      match cs with
+      | [] => []
+      | d :: ds => if isAsciiHexDigit d then hexRun 5 (hexVal d) ds else d :: unescapeBody ds
+    else c :: unescapeBody cs
+def hexRun : Nat → Nat → Str → Str
+  | _, acc, [] => [Char.ofNat acc]
+  | 0, acc, c :: cs =>
+    Char.ofNat acc :: (if c = ' ' || c = '\t' || c = '\n' then unescapeBody cs else unescapeBody (c :: cs))
+  | k + 1, acc, c :: cs =>
+    if isAsciiHexDigit c then hexRun k (acc * 16 + hexVal c) cs
+    else Char.ofNat acc :: (if c = ' ' || c = '\t' || c = '\n' then unescapeBody cs else unescapeBody (c :: cs))
+end
+
+/-- Strip the surrounding quotes of a quoted token and unescape; `none` if the token is not
+    `q … q` with `q` a quote character. -/
+def unescape (tok : Str) : Option Str :=
+  match tok with
+  | q :: rest =>
+    if (q = '"' || q = '\'') && rest.getLast? = some q then some (unescapeBody rest.dropLast) else none
+  | [] => none
+
+/-- Scanner modes of the well-formedness check: normal, after `/`, after `\`, inside a string
+    (with its quote), after `\` inside a string, inside a comment, after `*` inside a comment. -/
+inductive Mode
+  | normal | slash | esc | str (q : Char) | strEsc (q : Char) | comment | commentStar
+  deriving DecidableEq, Repr
+
+structure Scan where
+  mode : Mode
+  depth : Nat
+  deriving DecidableEq, Repr
+
+def stepNormal (d : Nat) (c : Char) : Option Scan :=
+  if c = '"' || c = '\'' then some ⟨.str c, d⟩
+  else if c = '/' then some ⟨.slash, d⟩
+  else if c = '\\' then some ⟨.esc, d⟩
+  else if c = '{' then some ⟨.normal, d + 1⟩
+  else if c = '}' then (if d = 0 then none else some ⟨.normal, d - 1⟩)
+  else some ⟨.normal, d⟩
+
+/-- One character of the scanner; `none` = ill-formed (a `}` without `{`, a raw newline in a string). -/
+def step (s : Scan) (c : Char) : Option Scan :=
+  match s.mode with
+  | .normal => stepNormal s.depth c
+  | .slash => if c = '*' then some ⟨.comment, s.depth⟩ else stepNormal s.depth c
+  | .esc => some ⟨.normal, s.depth⟩
+  | .str q =>
+    if c = '\\' then some ⟨.strEsc q, s.depth⟩
+    else if c = q then some ⟨.normal, s.depth⟩
+    else if c = '\n' then none
+    else some ⟨.str q, s.depth⟩
+  | .strEsc q => some ⟨.str q, s.depth⟩
+  | .comment => if c = '*' then some ⟨.commentStar, s.depth⟩ else some ⟨.comment, s.depth⟩
+  | .commentStar =>
+    if c = '/' then some ⟨.normal, s.depth⟩
+    else if c = '*' then some ⟨.commentStar, s.depth⟩
+    else some ⟨.comment, s.depth⟩
+
+def run : Scan → Str → Option Scan
+  | s, [] => some s
+  | s, c :: cs => match step s c with | some s' => run s' cs | none => none
+
+/-- P̂ (well-formedness): every block, string and comment of the text is closed and no `}` is
+    unmatched. -/
+def wellFormed (out : Str) : Bool :=
+  match run ⟨.normal, 0⟩ out with
+  | some s => (s.mode = .normal || s.mode = .slash) && s.depth = 0
+  | none => false
+
+/-- A piece of text that the scanner reads from "normal" back to "normal" without changing depth. -/
+def neutral (s : Str) : Bool := run ⟨.normal, 0⟩ s = some ⟨.normal, 0⟩
+
+/-- P̂ (charset): the text starts with the `@charset` rule or with a BOM. -/
+def hasCharsetOrBom (out : Str) : Bool :=
+  startsWith out charsetPrefix || out.head? = some bom
+
+/-- P̂ (charset rule): header present exactly when allowed and the rest has a non-ASCII character. -/
+def charsetOk (allowsCharset : Bool) (out : Str) : Bool :=
+  let rest := if startsWith out charsetPrefix then out.drop charsetPrefix.length
+              else if out.head? = some bom then out.drop 1 else out
+  hasCharsetOrBom out = (allowsCharset && rest.any isNonAscii)
+
+/-- P̂ (quoted token): starts and ends with the same quote `q`, and in between there is no raw
+    control character that `visit_quoted_string` escapes (in particular no newline) and every
+    occurrence of `q` or `\` is part of an escape. -/
+def quotedBodyOk (q : Char) : Bool → Str → Bool
+  | esc, [] => !esc
+  | true, c :: cs => !isEscapedControl c && quotedBodyOk q false cs
+  | false, c :: cs =>
+    if c = '\\' then quotedBodyOk q true cs
+    else if c = q || isEscapedControl c then false
+    else quotedBodyOk q false cs
+
+def quotedOk (tok : Str) : Bool :=
+  match tok with
+  | q :: rest =>
+    (q = '"' || q = '\'') && rest.getLast? = some q && rest.length ≥ 1 && quotedBodyOk q false rest.dropLast
+  | [] => false
+
+/-! ## driver: tree decoding -/
+
+open Grass.Proto
+
+def hexStr (h : String) : Option Str := (hexDecode h).map String.toList
+
+def optHexStr (h : String) : Option (Option Str) :=
+  if h == "_" then some none else (hexStr h).map some
+
+def takeN {α} (f : List String → Option (α × List String)) : Nat → List String → Option (List α × List String)
+  | 0, ts => some ([], ts)
+  | n + 1, ts =>
+    match f ts with
+    | some (a, ts') => (takeN f n ts').map fun r => (a :: r.1, r.2)
+    | none => none
+
+def parseSimple : List String → Option (Simple × List String)
+  | "s" :: h :: r => (hexStr h).map fun s => (Simple.text s, r)
+  | "ph" :: h :: r => (hexStr h).map fun s => (Simple.placeholder s, r)
+  | _ => none
+
+def parseComponent : List String → Option (Component × List String)
+  | "cb" :: c :: r =>
+    match c.toList with
+    | [ch] => if ch = '>' || ch = '+' || ch = '~' then some (Component.comb ch, r) else none
+    | _ => none
+  | "cp" :: n :: r =>
+    match n.toNat? with
+    | some n => (takeN parseSimple n r).map fun x => (Component.compound x.1, x.2)
+    | none => none
+  | _ => none
+
+def parseComplex : List String → Option (Complex × List String)
+  | "cx" :: lb :: n :: r =>
+    match parseBool? lb, n.toNat? with
+    | some lb, some n => (takeN parseComponent n r).map fun x => (⟨lb, x.1⟩, x.2)
+    | _, _ => none
+  | _ => none
+
+def parseHexStrTok : List String → Option (Str × List String)
+  | h :: r => (hexStr h).map fun s => (s, r)
+  | _ => none
+
+def parseQuery : List String → Option (Query × List String)
+  | "q" :: m :: t :: conj :: n :: r =>
+    match optHexStr m, optHexStr t, parseBool? conj, n.toNat? with
+    | some m, some t, some conj, some n =>
+      (takeN parseHexStrTok n r).map fun x => (⟨m, t, x.1, conj⟩, x.2)
+    | _, _, _, _ => none
+  | _ => none
+
+def parseAtom : List String → Option (Atom × List String)
+  | "r" :: h :: r => (hexStr h).map fun s => (Atom.raw s, r)
+  | "qs" :: h :: r => (hexStr h).map fun s => (Atom.quoted s, r)
+  | _ => none
+
+def parseSep : String → Option Sep
+  | "s" => some .space
+  | "c" => some .comma
+  | "l" => some .slash
+  | _ => none
+
+def parseValue : List String → Option (Value × List String)
+  | "a" :: r => (parseAtom r).map fun x => (Value.atom x.1, x.2)
+  | "l" :: sep :: n :: r =>
+    match parseSep sep, n.toNat? with
+    | some sep, some n => (takeN parseAtom n r).map fun x => (Value.list sep x.1, x.2)
+    | _, _ => none
+  | _ => none
+
+mutual
+def parseStmt : Nat → List String → Option (Stmt × List String)
+  | 0, _ => none
+  | fuel + 1, ts =>
+    match ts with
+    | "rule" :: ge :: n :: r =>
+      match parseBool? ge, n.toNat? with
+      | some ge, some n =>
+        match takeN parseComplex n r with
+        | some (sel, r) => (parseBody fuel r).map fun x => (Stmt.rule ge sel x.1, x.2)
+        | none => none
+      | _, _ => none
+    | "decl" :: name :: custom :: r =>
+      match hexStr name, parseBool? custom with
+      | some name, some custom => (parseValue r).map fun x => (Stmt.decl name custom x.1, x.2)
+      | _, _ => none
+    | "media" :: ge :: n :: r =>
+      match parseBool? ge, n.toNat? with
+      | some ge, some n =>
+        match takeN parseQuery n r with
+        | some (qs, r) => (parseBody fuel r).map fun x => (Stmt.media ge qs x.1, x.2)
+        | none => none
+      | _, _ => none
+    | "supports" :: ge :: params :: r =>
+      match parseBool? ge, hexStr params with
+      | some ge, some params => (parseBody fuel r).map fun x => (Stmt.supports ge params x.1, x.2)
+      | _, _ => none
+    | "at" :: ge :: name :: params :: hasBody :: r =>
+      match parseBool? ge, hexStr name, hexStr params, parseBool? hasBody with
+      | some ge, some name, some params, some hasBody =>
+        (parseBody fuel r).map fun x => (Stmt.unknown ge name params hasBody x.1, x.2)
+      | _, _, _, _ => none
+    | "kf" :: n :: r =>
+      match n.toNat? with
+      | some n =>
+        match takeN parseHexStrTok n r with
+        | some (sels, r) => (parseBody fuel r).map fun x => (Stmt.kf sels x.1, x.2)
+        | none => none
+      | none => none
+    | "comment" :: col :: text :: r =>
+      match col.toNat?, hexStr text with
+      | some col, some text => some (Stmt.comment text col, r)
+      | _, _ => none
+    | "import" :: url :: mods :: r =>
+      match hexStr url, optHexStr mods with
+      | some url, some mods => some (Stmt.import url mods, r)
+      | _, _ => none
+    | _ => none
+/-- `<n> stmt*` -/
+def parseBody : Nat → List String → Option (Stmts × List String)
+  | 0, _ => none
+  | fuel + 1, ts =>
+    match ts with
+    | n :: r =>
+      match n.toNat? with
+      | some n => parseStmtsN fuel n r
+      | none => none
+    | [] => none
+def parseStmtsN : Nat → Nat → List String → Option (Stmts × List String)
+  | 0, _, _ => none
+  | _ + 1, 0, ts => some (.nil, ts)
+  | fuel + 1, n + 1, ts =>
+    match parseStmt fuel ts with
+    | some (s, r) => (parseStmtsN fuel n r).map fun x => (Stmts.cons s x.1, x.2)
+    | none => none
+end
+
+def parseTree (ts : List String) : Option (List Stmt) :=
+  match parseBody (2 * ts.length + 4) ts with
+  | some (ss, []) => some ss.toList
+  | _ => none
+
+def parseStyle : String → Option Style
+  | "e" => some .expanded
+  | "c" => some .compressed
+  | _ => none
+
+def outHex (s : Str) : String := hexEncode (String.ofList s)
+
+/-- Sass-only syntax scanner (P̂ `sassFree`), see below. -/
+def isNameStart (c : Char) : Bool :=
+  c.isAlpha || c = '_' || c = '-' || c.toNat ≥ 128
+
+def sassAtRules : List Str :=
+  ["mixin", "include", "function", "return", "if", "else", "each", "for", "while", "use", "forward",
+   "extend", "debug", "warn", "error", "at-root", "content"].map lit
+
+/-- Scanner state for `sassFree`: string/comment tracking as in `Mode`, plus what has been seen in
+    the current segment (text since the last `{`, `}` or `;` outside strings and comments):
+    `seg` = the segment's non-string characters in reverse. -/
+structure SassScan where
+  mode : Mode
+  seg : Str          -- reversed
+  prev : Option Char -- previous character in normal mode (for `#{`, `$x`)
+  deriving Repr
+
+def segIsAtRule (seg : Str) : Bool := (trimStart seg.reverse).head? = some '@'
+
+def atRuleName (seg : Str) : Str :=
+  ((trimStart seg.reverse).drop 1).takeWhile (fun c => c.isAlphanum || c = '-' || c = '_')
+
+def percentAfterDigit : Option Char → Bool
+  | some p => p.isDigit
+  | none => false
+
+def selBad (seg : Str) : Bool :=
+  -- `seg` is the forward text; a `%` directly after a digit is a percentage (keyframe selector)
+  let rec go : Option Char → Str → Bool
+    | _, [] => false
+    | p, c :: cs =>
+      if c = '&' then true
+      else if c = '%' && !percentAfterDigit p && (match cs with | d :: _ => isNameStart d | [] => false) then true
+      else go (some c) cs
+  go none seg
+
+/-- P̂ (Sass-free): outside strings and comments there is no `#{`, no `$name`, no Sass-only
+    at-rule, and no `&` / `%placeholder` in a rule prelude that is not an at-rule. -/
+def sassFreeStep (s : SassScan) (c : Char) : Option SassScan :=
+  match s.mode with
+  | .normal | .slash =>
+    if s.mode = .slash && c = '*' then some { s with mode := .comment, prev := none }
+    else if c = '"' || c = '\'' then some { s with mode := .str c, seg := c :: s.seg, prev := some c }
+    else if c = '\\' then some { s with mode := .esc, seg := c :: s.seg, prev := some c }
+    else if c = '{' then
+      if s.prev = some '#' then none
+      else
+        let fwd := s.seg.reverse
+        if segIsAtRule s.seg then
+          (if sassAtRules.contains (atRuleName s.seg) then none else some { mode := .normal, seg := [], prev := some c })
+        else if selBad fwd then none else some { mode := .normal, seg := [], prev := some c }
+    else if c = '}' || c = ';' then
+      if segIsAtRule s.seg && sassAtRules.contains (atRuleName s.seg) then none
+      else some { mode := .normal, seg := [], prev := some c }
+    else if s.prev = some '$' && isNameStart c then none
+    else some { mode := (if c = '/' then .slash else .normal), seg := c :: s.seg, prev := some c }
+  | .esc => some { s with mode := .normal, seg := c :: s.seg, prev := some c }
+  | .str q =>
+    if c = '\\' then some { s with mode := .strEsc q }
+    else if c = q then some { s with mode := .normal, prev := some c }
+    else some s
+  | .strEsc q => some { s with mode := .str q }
+  | .comment => if c = '*' then some { s with mode := .commentStar } else some s
+  | .commentStar =>
+    if c = '/' then some { s with mode := .normal }
+    else if c = '*' then some s
+    else some { s with mode := .comment }
+
+def sassFreeRun : SassScan → Str → Option SassScan
+  | s, [] => some s
+  | s, c :: cs => match sassFreeStep s c with | some s' => sassFreeRun s' cs | none => none
+
+def sassFree (out : Str) : Bool :=
+  match sassFreeRun ⟨.normal, [], none⟩ out with
+  | some s => !(segIsAtRule s.seg && sassAtRules.contains (atRuleName s.seg))
+  | none => false
+
+/-- Driver entry.  Requests (after the `ser` token):
+    `print <e|c> <0|1> <tree…>`   → `ok <hex of serialize>` plus flags
+    `wf <hex>`                     → `ok <0|1>`   P̂ well-formedness of a text
+    `charset <0|1> <hex>`          → `ok <0|1>`   P̂ charset rule
+    `sassfree <hex>`               → `ok <0|1>`
+    `quote <hex>`                  → `ok <hex of quote s> <quotedOk> <roundtrip ok>`
+    `quotedok <hex of token>`      → `ok <0|1> <hex of unescape or _>`  -/
 def handle : List String → String
+  | "print" :: st :: cs :: tree =>
+    match parseStyle st, parseBool? cs, parseTree tree with
+    | some st, some cs, some t =>
+      let out := serialize st cs t
+      "ok " ++ outHex out ++ " " ++ boolStr (wellFormed out) ++ " " ++ boolStr (charsetOk cs out)
+    | _, _, _ => "bad-op"
+  | ["wf", h] =>
+    match hexStr h with
+    | some s => "ok " ++ boolStr (wellFormed s)
+    | none => "bad-op"
+  | ["charset", cs, h] =>
+    match parseBool? cs, hexStr h with
+    | some cs, some s => "ok " ++ boolStr (charsetOk cs s)
+    | _, _ => "bad-op"
+  | ["sassfree", h] =>
+    match hexStr h with
+    | some s => "ok " ++ boolStr (sassFree s)
+    | none => "bad-op"
+  | ["quote", h] =>
+    match hexStr h with
+    | some s =>
+      let q := quote s
+      "ok " ++ outHex q ++ " " ++ boolStr (quotedOk q) ++ " " ++ boolStr (unescape q == some s)
+    | none => "bad-op"
+  | ["quotedok", h] =>
+    match hexStr h with
+    | some s => "ok " ++ boolStr (quotedOk s) ++ " " ++ (match unescape s with | some u => outHex u | none => "_")
+    | none => "bad-op"
   | _ => "bad-op"
 
 end Grass.Serialize
